@@ -160,6 +160,8 @@ def assign_via(ex, rng, both_interfaces):
             contiguous = False
         elif op == "clear":
             last, contiguous, risky, begun = None, False, False, set()
+        elif op in ("installcmp", "installcpy", "removeall", "setdata", "getdata"):
+            contiguous = contiguous and l[1] == last      # they address a scope (C: the 'current mock support'), not the current call
         else:
             contiguous = False
         out.append(l)
@@ -183,6 +185,82 @@ def fits(code, value):
 INT_ATOMS = [0, 1, 2, 3, 7, -1, -2, 2 ** 31 - 1, 2 ** 31, -2 ** 31, 2 ** 32 - 1, 2 ** 32, 2 ** 32 + 1, 2 ** 63 - 1, 2 ** 63, 2 ** 64 - 1, -2 ** 63, 1000, 65536]
 
 
+BUILTIN_TYPE_NAMES = ["bool", "int", "unsigned int", "long int", "unsigned long int", "long long int", "unsigned long long int", "double",
+                      "const char*", "void*", "const void*", "void (*)()", "const unsigned char*"]
+PLAIN_TYPE_NAMES = ["TypeA", "TypeB", "Packet", "device"]
+
+
+def user_type_names():
+    """ordinary names of user types, as data: names that have nothing to do with a built-in type name, names that BEGIN like one
+    (intPair, boolean_flag, doubleBox, unsigned int_t ...), names that END like one, and proper prefixes of one"""
+    out = list(PLAIN_TYPE_NAMES) + ["intPair", "boolean_flag", "doubleBox", "integer", "long integer"]
+    for b in BUILTIN_TYPE_NAMES:
+        out.append(b + "Box")
+        if b[-1].isalpha():
+            out.append(b + "_t")
+        out.append("my_" + b)
+        out.append(b[:-1])
+    seen, res = set(), []
+    for n in out:
+        if n not in seen and n not in BUILTIN_TYPE_NAMES and not set(n) & set("|;=:,\t"):
+            seen.add(n)
+            res.append(n)
+    return res
+
+
+class Repos:
+    """python twin of Mock!Install / Touched / CmpOf, used only to derive actual values that the expectations will accept"""
+
+    def __init__(self):
+        self.r = {"": []}
+
+    def view(self, s):
+        return self.r[s] if s in self.r else list(reversed(self.r[""]))      # a scope that does not exist yet would inherit this
+
+    def install(self, s, tn, cmp=None, cpy=None):
+        self.r[s] = self.view(s)
+        for x in (list(self.r) if s == "" else [s]):
+            self.r[x].insert(0, (tn, cmp, cpy))
+
+    def cmp(self, s, tn):
+        return next((n[1] for n in self.view(s) if n[0] == tn and n[1]), None)
+
+    def cpy(self, s, tn):
+        return next((n[2] for n in self.view(s) if n[0] == tn and n[2]), None)
+
+
+def install_plan(rng, scopes, cmp_types, cpy_types):
+    """installation lines in front of a scenario: every scope ends up with a comparator for cmp_types and a copier for cpy_types;
+    which function a scope has comes from the global scope (installed before or after the scope exists) or from the scope
+    itself, and scopes may differ.  -> (lines, Repos)"""
+    lines, R = [], Repos()
+    jobs = [("installcmp", tn, ["whole", "first"]) for tn in cmp_types] + [("installcpy", tn, ["plain", "inv"]) for tn in cpy_types]
+    rng.shuffle(jobs)
+    children = [s for s in scopes if s]
+
+    def add(op, s, tn, md):
+        lines.append([op, s, tn, md])
+        R.install(s, tn, cmp=md if op == "installcmp" else None, cpy=md if op == "installcpy" else None)
+    for op, tn, modes in jobs:
+        style = rng.choice(["global", "global", "each", "override", "late-global", "twice"])
+        if style == "global" or not children:
+            seq = [""]
+        elif style == "each":
+            seq = rng.sample(scopes, len(scopes))
+        elif style == "override":
+            seq = [""] + [s for s in children if rng.random() < 0.7]
+        elif style == "late-global":
+            seq = children + [""]
+        else:
+            seq = ["", ""] + children[:1]
+        for s in seq:
+            add(op, s, tn, rng.choice(modes))
+        for s in scopes:       # whoever is still without gets its own
+            if (R.cmp(s, tn) if op == "installcmp" else R.cpy(s, tn)) is None:
+                add(op, s, tn, rng.choice(modes))
+    return lines, R
+
+
 class Atoms:
     """Parameter values as atoms: two different atoms can never be matched by one actual value, one atom can be
     spelled in several ways (an integer in every integer type that holds it; a double anywhere inside the tolerance)."""
@@ -190,6 +268,7 @@ class Atoms:
     def __init__(self, rng, typed=True):
         self.rng = rng
         self.typed = typed
+        self.types = rng.sample(user_type_names(), 2) if rng.random() < 0.7 else ["TypeA", "TypeB"]
 
     def atom(self, kind=None):
         rng = self.rng
@@ -206,7 +285,7 @@ class Atoms:
             return ("mem", bytes(rng.randrange(256) for _ in range(rng.randrange(0, 5))))
         if kind == "dbl":
             return ("dbl", rng.randrange(-20, 20) * 1000)
-        return ("obj", rng.choice(["TypeA", "TypeB"]), rng.randrange(1, 4))
+        return ("obj", rng.choice(self.types), rng.randrange(1, 4))       # the atom is the FIRST field; the second one is spelling
 
     def other(self, a):
         """an atom of the same kind that differs"""
@@ -236,7 +315,14 @@ class Atoms:
                 return {"t": "double", "v": {"k": "fin", "neg": a[1] < 0, "q": a[1]}, "tol": {"k": "fin", "neg": False, "q": rng.choice([0, 0, 1, 8, 100])}}
             q = a[1]
             return {"t": "double", "v": {"k": "fin", "neg": q < 0, "q": q}, "tol": {"k": "fin", "neg": False, "q": 0}}
-        return {"t": "obj", "tn": a[1], "c": a[2]}
+        return {"t": "obj", "tn": a[1], "c": [a[2], rng.randrange(1, 4)]}
+
+
+def obj_within(rng, expv, mode):
+    """an actual object the expectation's comparator accepts: the same first field; the second one matters in mode "whole"
+    (now and then an actual value that only a "first" comparator accepts is passed to a "whole" one: a wrong value)"""
+    b = expv["c"][1] if (mode == "whole" and rng.random() < 0.9) else rng.randrange(1, 4)
+    return {"t": "obj", "tn": expv["tn"], "c": [expv["c"][0], b]}
 
 
 def double_within(rng, expv):
@@ -245,13 +331,39 @@ def double_within(rng, expv):
     return {"t": "double", "v": {"k": "fin", "neg": q < 0, "q": q}, "tol": {"k": "fin", "neg": False, "q": 0}}
 
 
+def data_lines(rng, scopes):
+    """the data store: values of the supported kinds and objects of user types (const and non-const) are set, overwritten and read"""
+    out = []
+    names = ["k", "cfg", "flag"]
+    tns = user_type_names()
+    for _ in range(rng.randrange(1, 5)):
+        s, k = rng.choice(scopes), rng.choice(names)
+        kind = rng.choice(["obj", "obj", "int", "bool", "str", "dbl", "ptr"])
+        if kind == "obj":
+            out.append(["setdata", s, k, "O|%s|%d,%d" % (rng.choice(tns), rng.randrange(1, 4), rng.randrange(1, 4)), rng.choice(["const", "mut"])])
+        elif kind == "int":
+            out.append(["setdata", s, k, rng.choice([enc_int("int", rng.choice([-2 ** 31, -1, 0, 5, 2 ** 31 - 1])), enc_int("uint", rng.choice([0, 7, 2 ** 32 - 1]))])])
+        elif kind == "bool":
+            out.append(["setdata", s, k, "B|%d" % rng.randrange(2)])
+        elif kind == "str":
+            out.append(["setdata", s, k, "S|" + rng.choice(["", "hi", "int"]).encode().hex()])
+        elif kind == "dbl":
+            out.append(["setdata", s, k, "D|fin|0|%d|fin|0|0" % rng.randrange(0, 40)])
+        else:
+            out.append(["setdata", s, k, "P|%s|%d" % (rng.choice("vcf"), rng.randrange(3))])
+        if rng.random() < 0.7:
+            out.append(["getdata", rng.choice(scopes), rng.choice(names)])
+    out.append(["getdata", rng.choice(scopes), rng.choice(names)])
+    return out
+
+
 def random_scenario(rng, typed=True, c_compatible=False, max_exp=12, max_calls=30):
     """One scenario: flags, expectations (unambiguous by construction), actual calls derived from them with a few
     deviations, check, end.  c_compatible: only what the C interface can express (no objects; the sub-calls of one
     call are contiguous)."""
     A = Atoms(rng, typed)
     lines = []
-    scopes = [""] if rng.random() < 0.75 else rng.choice([["", "s"], ["s"], ["", "s", "t"]])
+    scopes = [""] if rng.random() < (0.6 if typed else 0.75) else rng.choice([["", "s"], ["s"], ["", "s", "t"], ["s", "t"]])
     strict = {s: rng.random() < 0.25 for s in scopes}
     ignore_others = rng.random() < 0.2
     if ignore_others:
@@ -266,8 +378,15 @@ def random_scenario(rng, typed=True, c_compatible=False, max_exp=12, max_calls=3
             names = rng.sample(["p", "q", "r"], rng.randrange(0, 3 if rng.random() < 0.8 else 4))
             onames = rng.sample(["x", "y"], rng.choice([0, 0, 0, 1, 1, 2]))
             shape[(s, fn)] = dict(names=names, onames=onames, kinds={k: A.atom()[0] for k in names},
-                                  otys={k: (rng.choice(["raw", "raw", "TypeA"]) if typed else "raw") for k in onames},
+                                  otys={k: (rng.choice(["raw", "raw", A.types[0]]) if typed else "raw") for k in onames},
                                   objs=(not c_compatible) and rng.random() < 0.25)
+    # user types: comparators for the parameter types, copiers for the output types, installed per scope in front of everything
+    R = Repos()
+    if typed:
+        used_cmp = sorted({t for t in A.types})
+        used_cpy = sorted({ty for sh in shape.values() for ty in sh["otys"].values() if ty != "raw"})
+        inst, R = install_plan(rng, scopes, used_cmp, used_cpy)
+        lines = inst + lines
     exps = []       # (scope, exp record, atoms)
     nexp = rng.randrange(1, max_exp + 1)
     for _ in range(nexp):
@@ -305,6 +424,11 @@ def random_scenario(rng, typed=True, c_compatible=False, max_exp=12, max_calls=3
     for s, e, _ in exps:
         order = list(e["ins"]); rng.shuffle(order)
         lines.append(expect_line(s, e, order))
+    if typed and rng.random() < 0.15:
+        # a later installation: the expectations keep the functions they have bound
+        lines.append(["installcmp", rng.choice(scopes), rng.choice(A.types), rng.choice(["whole", "first"])])
+    if typed and rng.random() < 0.3:
+        lines.extend(data_lines(rng, scopes))
     # the calls that would fulfil everything
     calls = []
     for s, e, meta in exps:
@@ -336,7 +460,7 @@ def random_scenario(rng, typed=True, c_compatible=False, max_exp=12, max_calls=3
         subs = []
         for k, v in e["ins"].items():
             a = meta["atoms"][k]
-            av = double_within(rng, v) if a[0] == "dbl" else A.spell(a, False)
+            av = double_within(rng, v) if a[0] == "dbl" else (obj_within(rng, v, R.cmp(s, v["tn"])) if a[0] == "obj" else A.spell(a, False))
             subs.append(["param", s, k, enc(av)])
         for k, o in e["outs"].items():
             subs.append(["outparam", s, k, o["ty"]])
@@ -357,7 +481,7 @@ def random_scenario(rng, typed=True, c_compatible=False, max_exp=12, max_calls=3
             elif kind < 0.85 and subs[j][0] == "object":
                 subs[j] = ["object", s, (subs[j][2] % 3) + 1]                  # another object
             elif kind < 0.93 and subs[j][0] == "outparam":
-                subs[j] = ["outparam", s, subs[j][2], "TypeB" if typed else "raw"]   # another output type
+                subs[j] = ["outparam", s, subs[j][2], A.types[1] if typed else "raw"]   # another output type
             else:
                 subs.insert(j, ["outparam", s, "w", "raw"])                    # unknown output parameter
         lines.extend(subs)
